@@ -13,6 +13,9 @@ claimed = {
  "C01": dict(
    text="Bounded symbolic model checking of the real ring kernels from go/ssa: scalar reductions (MRed/BRed/MForm/IMForm/CRed + lazy forms) for all 64-bit inputs per modulus of a stated set; all 37 unrolled vector kernels (lane discipline on 16 lanes + lane semantics); forward/inverse NTT (N=16,32; thorough to 128) by stage-cut lemmas whose concrete stage matrices compose to the definition matrix; every obligation is an SMT query (unsat for all values inside the bound).",
    ref="DESIGN.md §6-C01", technique="SSA symbolic execution + SMT (LIA with wrap elimination / BV), stage-cut inductive lemmas for the NTT"),
+ "C03": dict(
+   text="Algebraic slot model: the real key generator, encryptor (secret-key / public-key, with and without P, NTT and coefficient-domain parameter sets, every level) and decryptor are executed from SSA with every plaintext, key, mask and error coefficient a free element of Z_q (atom); Dec(Enc(pt))-pt must reduce to error/rounding atoms only, every coefficient must carry a fresh error atom, metadata must be copied, decryption under an independent key must keep the uniform mask. The final polynomial identities are decided by the SMT solver over free monomial variables. Numeric noise bounds / empirical sigma are outside (statistical).",
+   ref="DESIGN.md §6-C03, §4.3", technique="SSA symbolic execution in the algebraic slot model (field elements over atoms, kernel contracts from C01) + SMT (LIA) on the normalised identities"),
  "C08": dict(
    text="Stream-level symbolic execution of the real (de)serialisation code (ring.Poly through structs.Matrix/Vector and utils/buffer): round trip with all payload words symbolic through WriteTo/ReadFrom and MarshalBinary/UnmarshalBinary into fresh and reused receivers, announced size, every truncation point, corrupted length fields (classes small / negative / huge) with the allocation obligation on every symbolic make.",
    ref="DESIGN.md §6-C08", technique="SSA symbolic execution of the codecs over symbolic byte streams + SMT (BV); path forking on stream-dependent branches; native replay"),
